@@ -1021,10 +1021,23 @@ func isBroadcast(ip net.IP, network *net.IPNet) bool {
 	if ip == nil {
 		return false
 	}
-	// Check for all-ones broadcast
+	// Check for all-ones broadcast and for the subnet's directed broadcast
 	ip4 := ip.To4()
 	if ip4 != nil {
-		return ip4[0] == 255 && ip4[1] == 255 && ip4[2] == 255 && ip4[3] == 255
+		if ip4[0] == 255 && ip4[1] == 255 && ip4[2] == 255 && ip4[3] == 255 {
+			return true
+		}
+		if network != nil {
+			if base, mask := network.IP.To4(), network.Mask; base != nil && len(mask) == 4 {
+				for i := 0; i < 4; i++ {
+					if ip4[i] != base[i]|^mask[i] {
+						return false
+					}
+				}
+				return true
+			}
+		}
+		return false
 	}
 	// For MAC address broadcast check
 	if len(ip) == 6 {
